@@ -245,3 +245,44 @@ func VerifC03_ResponderFinalizing() {
 		zz.Reach("stays")
 	}
 }
+
+// VerifC03_History5 (thorough): k = 5 initiator-side normal-flow stimuli from a freshly
+// accepted channel, tracking the ghost bits along the real history: cross-check that the one-step
+// invariant is not too weak (every reachable state satisfies it) and that Completed is reached
+// exactly when both signals have been seen.
+//
+//verif:tier thorough
+//verif:opts fuel=60 part0=8 part1=2
+func VerifC03_History5() {
+	f := verifFixtureWith(1, 0)
+	zz.Assume(f.pre.Status == datatransfer.Ongoing)
+	F, R, L := false, false, false
+	for i := 0; i < 5; i++ {
+		pre := f.g.VerifPeek(f.chid).Status
+		if IsChannelTerminated(pre) {
+			break
+		}
+		// the three completion signals plus one representative of the other classes
+		codes := []datatransfer.EventCode{datatransfer.FinishTransfer, datatransfer.ResponderCompletes, datatransfer.ResponderBeginsFinalization,
+			datatransfer.PauseResponder, datatransfer.Restart}
+		code := codes[zz.Choice("stim", len(codes))]
+		_ = VerifSendArbitrary(f.g, f.chid, code, "ev")
+		if code == datatransfer.FinishTransfer {
+			F = true
+			if pre == datatransfer.AwaitingAcceptance {
+				L = true
+			}
+		}
+		if code == datatransfer.ResponderCompletes {
+			R = true
+		}
+		post := f.g.VerifPeek(f.chid).Status
+		zz.Assert(verifInv(post, F, R, L), "every reachable state satisfies the invariant")
+		if post == datatransfer.Completed {
+			zz.Assert(F && R && (code == datatransfer.FinishTransfer || code == datatransfer.ResponderCompletes), "Completed is reached only by one of the two signals once both were seen")
+		}
+	}
+	if F && R {
+		zz.Reach("both signals seen")
+	}
+}
